@@ -194,7 +194,9 @@ def r_merge(ctx):
     seen = set()
     # configurations: up to 3 anchors on lines 1..3, up to 2 comments
     anchor_opts = [("EntryTrailing", 2, 6, 1), ("ChoiceTrailing", 4, 6, 1), ("ChoiceTrailing", 2, 6, 1), ("EntryTrailing", 2, 4, 1), ("EntryLeading", 30, 30, 3),
-                   ("RuleLeading", 50, 50, 5), ("ChoiceLeading", 22, 22, 2), ("EntryTrailing", 31, 35, 3), ("GrpChoiceLeading", 42, 42, 4)]
+                   ("RuleLeading", 50, 50, 5), ("ChoiceLeading", 22, 22, 2), ("EntryTrailing", 31, 35, 3), ("GrpChoiceLeading", 42, 42, 4),
+                   # an entry that spans lines 1-3: its own trailing slot precedes (pre-order) the slots of the choices nested in it
+                   ("EntryTrailing", 2, 35, 3)]
     comment_opts = [(8, 12, 1, False, "t1"), (20, 24, 2, True, "p2"), (36, 40, 3, False, "t3"), (26, 29, 2, True, "q2"), (44, 48, 4, True, "p4")]
     container_opts = [[], [(1, 28)], [(1, 60)], [(1, 60), (19, 25)]]
     for na in (1, 2, 3):
